@@ -139,6 +139,8 @@ import region_model
 import assemble_model
 REGION_REC = region_model.RegionRecorder(max_records=50, stride=5, max_atoms=400)
 ASSEMBLE = []
+SPAN = []
+import span_model
 
 
 def recorded_runs(ctx, nrun, directed=False):
@@ -168,6 +170,8 @@ def recorded_runs(ctx, nrun, directed=False):
                 clusters = shared.get_clusters(a, seed=seed, **params)
             if len(ASSEMBLE) < 80:
                 ASSEMBLE.extend(prec.assemble[:2])
+            if len(SPAN) < 30:
+                SPAN.extend(prec.span[:1])
             proto_records.extend(prec.records)
             if len(adaptive_records) < 600:
                 adaptive_records.extend(prec.adaptive[:60])
@@ -309,6 +313,7 @@ def run(ctx):
         broken.append(("correspondence", {"count": len(mism), "mismatches": mism[:5]}))
     region_model.check(ctx, broken, REGION_REC.records)
     assemble_model.check(ctx, broken, ASSEMBLE)
+    span_model.check(ctx, broken, SPAN)
     seen = set()
     for b in bad:
         key = "%s:%s" % (b["case"]["kind"], b["complaints"][0][:40])
